@@ -14,8 +14,8 @@ import sfc_models.equation
 import sfc_models.utils
 
 LEADS = [None, '', 'x', 'x*y', '2*x', '(a+b)', 'a+b*x', '0.0', '-x', 'y/x']
-PRE = ['x', 'y', 'x*y', '2', 'x/y']
-ADD = ['x', '+x', '-x', '(-x)', '-(x)', '-(-x)', '+(+x)', 'x*y', '-x/y', '2', '-2', 'x*2', ' - x ', 'y', '-(x*y)', 'a']
+PRE = ['x', 'y', 'x*y', '2', 'x/y', 'x/2']
+ADD = ['x', '+x', '-x', '(-x)', '-(x)', '-(-x)', '+(+x)', 'x*y', '-x/y', '2', '-2', 'x*2', ' - x ', 'y', '-(x*y)', 'a', 'y/x', 'y*x', '2*x', 'x/2', '-(2/x)']
 
 
 def xenv(D):
